@@ -1018,8 +1018,8 @@ func c06SnapEq(a, b *c06Snap) bool {
 func (c *c06Case) step(op string) {
 	r, d := c.r, c.d
 	f := strings.Fields(op)
-	if len(f) == 0 {
-		return
+	if len(f) == 0 || c.bad != "" {
+		return // a case stops at its first oracle violation
 	}
 	c.hist = append(c.hist, op)
 	prev := c.prev
@@ -1231,6 +1231,14 @@ func (c *c06Case) step(op string) {
 				SpendingTx: tx, SpenderInputIndex: 0, SpendingHeight: int32(h),
 			})
 			res = c06ErrName(err)
+		case "reconn":
+			var asked [][]byte
+			res, asked = d.reconnVia(f[1], f[2], f[3] == "1")
+			for _, q := range asked {
+				if prev.P != nil && !bytes.Equal(q, func() []byte { b := d.w.batchID(prev.P.ID); return b[:] }()) {
+					c.violate("reconnect asked the auctioneer about batch %x, pending is %d", q, prev.P.ID)
+				}
+			}
 		case "reconnect":
 			var fk *c06Rpc
 			res, fk = d.reconnect(f[1], f[2] == "1")
@@ -1282,7 +1290,7 @@ func (c *c06Case) step(op string) {
 	}
 	// ---------------- oracle: the property's English text on real outputs ----------------
 	ok := res == "ok"
-	if f[0] == "reconnect" {
+	if f[0] == "reconnect" || f[0] == "reconn" {
 		ok = true
 	}
 	if !ok && ob.str() != prev.str() {
@@ -1508,6 +1516,42 @@ func (c *c06Case) step(op string) {
 		}
 		if ob.str() != prev.str() {
 			c.violate("close and reopen changed observable state:\n before %s\n after  %s", prev.str(), ob.str())
+		}
+	case "reconn":
+		// the reconnect clause on every path that (re-)creates the stream
+		r.Count("reconn/" + f[1])
+		if strings.HasPrefix(res, "hung:") || strings.HasPrefix(res, "setup:") || strings.HasPrefix(res, "panic:") {
+			c.violate("reconnect via %s crashed / did not terminate: %s", f[1], res)
+			break
+		}
+		if ob.visible() != prev.visible() {
+			c.violate("reconnect changed visible accounts/orders/snapshots")
+		}
+		wantDiscard := false
+		if prev.P != nil && strings.HasPrefix(f[2], "fin") {
+			t := atoi(f[2][strings.Index(f[2], ":")+1:])
+			wantDiscard = t != prev.P.Tx && f[3] == "1"
+			if t != prev.P.Tx {
+				r.Count("reconn/" + f[1] + "/other-tx")
+			} else {
+				r.Count("reconn/" + f[1] + "/same-tx")
+			}
+		} else if prev.P != nil {
+			r.Count("reconn/" + f[1] + "/" + f[2])
+		}
+		if prev.P != nil && !strings.Contains(res, ";q=") {
+			c.violate("reconnect via %s with a staged batch: %s", f[1], res)
+		}
+		if prev.P != nil && strings.HasSuffix(res, ";q=0") {
+			c.violate("reconnect via %s never asked the auctioneer about the staged batch (%s)", f[1], res)
+		}
+		if wantDiscard && ob.P != nil {
+			c.violate("reconnect via %s: the auctioneer finalised another transaction but the staged batch "+
+				"was kept (%s) – it would be applied by the next account spend", f[1], res)
+		}
+		if !wantDiscard && !c06SnapEq(ob.P, prev.P) {
+			c.violate("reconnect via %s: staged batch dropped although not finalised / same tx / cleanup "+
+				"failed (%s)", f[1], res)
 		}
 	case "reconnect":
 		// keep <=> no pending / not finalised / same txid (or an error
@@ -1868,7 +1912,11 @@ func (g *c06Gen) history() []string {
 			if rng.Intn(5) == 0 {
 				rm = 0
 			}
-			ops = append(ops, fmt.Sprintf("reconnect %s %d", rpc, rm))
+			if rng.Intn(2) == 0 {
+				ops = append(ops, fmt.Sprintf("reconn %s %s %d", []string{"first", "err", "shut"}[rng.Intn(3)], rpc, rm))
+			} else {
+				ops = append(ops, fmt.Sprintf("reconnect %s %d", rpc, rm))
+			}
 		}
 	}
 	return ops
@@ -1902,7 +1950,7 @@ func runC06(r *Run) {
 		return
 	}
 	g := &c06Gen{r: r}
-	for i := 0; i < r.N; i++ {
+	for i := 0; i < r.N && len(r.Violations) < 20; i++ {
 		runOne(g.history(), "C06/history")
 	}
 }
